@@ -51,10 +51,10 @@ def keyLits : TKey → List Int
 
 /-- A literal is non-zero, below the counter `m`, and if it is below the first
     fresh variable `n` it satisfies `P` (instantiated by "is a variable of the formula"). -/
-def LitOK (n : Nat) (P : Nat → Prop) (m : Nat) (v : Int) : Prop :=
+def FLitOK (n : Nat) (P : Nat → Prop) (m : Nat) (v : Int) : Prop :=
   v ≠ 0 ∧ v.natAbs < m ∧ (v.natAbs < n → P v.natAbs)
 
-theorem LitOK.mono {n P m m' v} (h : LitOK n P m v) (hm : m ≤ m') : LitOK n P m' v :=
+theorem FLitOK.mono {n P m m' v} (h : FLitOK n P m v) (hm : m ≤ m') : FLitOK n P m' v :=
   ⟨h.1, by have := h.2.1; omega, h.2.2⟩
 
 @[simp] theorem tlitVal_pos (τ : Assign) (v : Int) : tlitVal τ (pos v) = litVal τ v := by
@@ -149,7 +149,7 @@ structure Inv (n : Nat) (P : Nat → Prop) (s : TState) : Prop where
   le : n ≤ s.next
   cache : ∀ k v, (k, v) ∈ s.cache → n ≤ v ∧ v < s.next ∧
     ∀ τ, tclsSat τ s.clauses = true → τ v = keyVal τ k
-  lits : ∀ c ∈ s.clauses, ∀ l ∈ c, LitOK n P s.next l.v
+  lits : ∀ c ∈ s.clauses, ∀ l ∈ c, FLitOK n P s.next l.v
   ex : ∀ σ : Assign, ∃ τ, AgreeBelow n σ τ ∧ tclsSat τ s.clauses = true
   uniq : ∀ τ₁ τ₂, tclsSat τ₁ s.clauses = true → tclsSat τ₂ s.clauses = true →
     AgreeBelow n τ₁ τ₂ → AgreeBelow s.next τ₁ τ₂
@@ -187,11 +187,11 @@ theorem lookup_some {s : TState} {k : TKey} {v : Nat} (h : s.lookup k = some v) 
 
 theorem getOrDefine_spec {n : Nat} {P : Nat → Prop} {s : TState} {k : TKey}
     {defs : Int → List (List TLit)} (hn : 0 < n) (hI : Inv n P s)
-    (hk : ∀ v ∈ keyLits k, LitOK n P s.next v)
+    (hk : ∀ v ∈ keyLits k, FLitOK n P s.next v)
     (hdef : ∀ (r : Int) (τ : Assign), tclsSat τ (defs r) = (litVal τ r == keyVal τ k))
     (hlits : ∀ (r : Int), ∀ c ∈ defs r, ∀ l ∈ c, l.v = r ∨ l.v ∈ keyLits k) :
     Inv n P (s.getOrDefine k defs).2 ∧ Ext s (s.getOrDefine k defs).2 ∧
-    LitOK n P (s.getOrDefine k defs).2.next (s.getOrDefine k defs).1 ∧
+    FLitOK n P (s.getOrDefine k defs).2.next (s.getOrDefine k defs).1 ∧
     ∀ τ, tclsSat τ (s.getOrDefine k defs).2.clauses = true →
       litVal τ (s.getOrDefine k defs).1 = keyVal τ k := by
   unfold TState.getOrDefine
@@ -369,14 +369,14 @@ theorem iffDefs_lits (a b r : Int) :
 def RepSpec (n : Nat) (P : Nat → Prop) (f : Formula) (s : TState) : Prop :=
   Inv n P s → f.WF n → (∀ v ∈ f.vars, P v) →
     Inv n P (tseitinRep f s).2 ∧ Ext s (tseitinRep f s).2 ∧
-    LitOK n P (tseitinRep f s).2.next (tseitinRep f s).1 ∧
+    FLitOK n P (tseitinRep f s).2.next (tseitinRep f s).1 ∧
     ∀ τ, tclsSat τ (tseitinRep f s).2.clauses = true →
       litVal τ (tseitinRep f s).1 = f.eval τ
 
 def RepsSpec (n : Nat) (P : Nat → Prop) (l : List Formula) (s : TState) : Prop :=
   Inv n P s → Formula.WFs n l → (∀ v ∈ Formula.varsList l, P v) →
     Inv n P (tseitinReps l s).2 ∧ Ext s (tseitinReps l s).2 ∧
-    (∀ v ∈ (tseitinReps l s).1, LitOK n P (tseitinReps l s).2.next v) ∧
+    (∀ v ∈ (tseitinReps l s).1, FLitOK n P (tseitinReps l s).2.next v) ∧
     ∀ τ, tclsSat τ (tseitinReps l s).2.clauses = true →
       (tseitinReps l s).1.map (litVal τ) = l.map (eval τ)
 
@@ -528,7 +528,7 @@ theorem eval_congr {n : Nat} {σ τ : Assign} (h : AgreeBelow n σ τ) (f : Form
 theorem toCnfTseitin_spec (f : Formula) (n : Nat) (hn : 0 < n) (hf : f.WF n) :
     ∃ s : TState, ∃ r : Int,
       toCnfTseitin f n = { clauses := s.clauses.reverse, root := r, next := s.next } ∧
-      Inv n (· ∈ f.vars) s ∧ LitOK n (· ∈ f.vars) s.next r ∧
+      Inv n (· ∈ f.vars) s ∧ FLitOK n (· ∈ f.vars) s.next r ∧
       ∀ τ, tclsSat τ s.clauses = true → litVal τ r = f.eval τ := by
   have h := (tseitin_spec n (· ∈ f.vars) hn).1 f { next := n, cache := [], clauses := [] }
     (Inv.init n _) hf (fun v hv => hv)
